@@ -10,7 +10,13 @@ RULE = ("ContainerReader.tla: the reader over a damaged abstract file (Cut(k) fo
         " (a third of the 36 combinations per quick run, all in thorough), 2-4 blocks; EVERY byte offset as cut; every byte of every marker"
         " occurrence and of the magic altered with masks 01/80/FF; each damaged copy is read with Reader and judged by Trace_Damage.tla"
         " against the independent Container!ParseFile of the intact bytes. Non-trivial = cut strictly inside the file or a marker/magic"
-        " alteration; distinct = distinct (file, kind, offset, mask).")
+        " alteration; distinct = distinct (file, kind, offset, mask). ReaderFn.tla/ReaderSession.tla model the Reader at the granularity"
+        " of its code (message_count assigned before the marker is compared; the shared error latch; into_deser_iter); TLC checks"
+        " OnlyVerified / TruePrefix / NothingAfterError / EndMeansAll / ErrorReported / Quiesces over every damage x every session"
+        " shape and the two defect classes (latch per iterator, empty block ends the iteration) must give counterexamples. On the"
+        " small files every damage is also driven as SESSIONS (call sequences: value polls, into_deser_iter at every position -"
+        " also after the error -, deserializing polls, polls after the end) and each recorded call sequence is replayed on the"
+        " model's Poll/Switch functions by Trace_Damage.tla (sessions / session_calls).")
 
 
 def run(prop, tier, seed, replay=None):
@@ -25,6 +31,16 @@ def run(prop, tier, seed, replay=None):
     if r2.ok:
         raise vf.ToolError("ContainerReader model: the EOF-inside-count counterexample was not found (invariants vacuous)")
     rep.add_states(r2.distinct, r2.generated)
+    # the Reader at the granularity of its code (ReaderFn/ReaderSession): every damage x every session shape
+    r3 = vf.tlc_mc(work, "MC_ReaderSession.tla", "MC_ReaderSession.cfg", workers=4, timeout=600, extra=["-coverage", "1"])
+    if not r3.ok:
+        raise vf.ToolError(f"ReaderSession model violated: {r3.violated}")
+    rep.add_states(r3.distinct, r3.generated)
+    for cfg, what in (("MC_ReaderSession_latch.cfg", "latch-per-iterator"), ("MC_ReaderSession_empty.cfg", "empty-block-ends-iteration")):
+        rd = vf.tlc_mc(work, "MC_ReaderSession.tla", cfg, workers=4, timeout=600)
+        if rd.ok:
+            raise vf.ToolError(f"ReaderSession model: the {what} counterexample was not found (invariants vacuous)")
+        rep.add_states(rd.distinct, rd.generated)
     ev_file = work / "events.ndjson"
     p = subprocess.run([str(vf.AVH.parent / "avh_c14"), "run", "--out", str(ev_file), "--tier", tier, "--seed", str(seed)],
                        stdout=subprocess.PIPE, stderr=subprocess.PIPE, text=True, timeout=3000)
@@ -55,6 +71,13 @@ def run(prop, tier, seed, replay=None):
     rep.cov["traces_validated_against_impl"] = n
     rep.cov["evaluations"] = n
     dm = [e for e in evs.values() if e["ev"] == "damage"]
+    ss = [e for e in evs.values() if e["ev"] == "session"]
+    rep.cov["sessions"] = len(ss)
+    rep.cov["session_calls"] = sum(len(e["calls"]) for e in ss)
+    rep.cov["sessions_converted_after_error"] = sum(
+        1 for e in ss if any(c["r"] == "switch" and any(x["r"] == "err" for x in e["calls"][:i]) for i, c in enumerate(e["calls"])))
+    if not ss or rep.cov["sessions_converted_after_error"] == 0:
+        raise vf.ToolError("vacuous run: no session converts the reader after an error")
     rep.cov["distinct_nontrivial"] = len({(e["fid"], e["kind"], e["k"], e["mask"]) for e in dm
                                           if e["kind"] != "cut" or 0 < e["k"] < len(files[e["fid"]]["bytes"])})
     rep.cov["rule"] = RULE
